@@ -1248,8 +1248,15 @@ impl CoreRuntime {
                         state_ptr: &self.state as *const LlamaState,
                     };
                     let opcode = bus.load(pc_before, 8) as u8;
+                    // The bookkeeping below (WAIT cycles, RESET/IR/RETI state) is about the operation,
+                    // which sits behind an optional PRE byte.
+                    let op_byte = if matches!(opcode, 0x21..=0x27 | 0x30..=0x37) {
+                        bus.load(pc_before.wrapping_add(1), 8) as u8
+                    } else {
+                        opcode
+                    };
                     // Capture WAIT loop count before execution (executor clears I).
-                    let wait_loops = if opcode == 0xEF {
+                    let wait_loops = if op_byte == 0xEF {
                         self.state.get_reg(RegName::I) & mask_for(RegName::I)
                     } else {
                         0
@@ -1263,7 +1270,7 @@ impl CoreRuntime {
                         }
                     };
                     let pc_after = self.state.get_reg(RegName::PC) & ADDRESS_MASK;
-                    (opcode, instr_len, pc_after, wait_loops)
+                    (op_byte, instr_len, pc_after, wait_loops)
                 };
                 if opcode == 0xFF {
                     // RESET intrinsic: Python only adjusts IMEM + PC; preserve timer/counter state and
